@@ -51,7 +51,7 @@ func verifFrame(kind int, n int) (frame.Frame, []byte) {
 
 // W: k entries; the file is exactly the concatenation of BE64(unix microseconds) and the spec frame bytes,
 // and reading it back returns k entries with equal frames, then an error.
-func verifHarness_C20_write(k int, n int) {
+func verifHarness_C20_write(k int, n int, cut int) {
 	rec := &frame.VerifRecWriter{}
 	w := &Writer{ByteWriter: rec}
 	verifAssert(w.Initialize() == nil, "C20/W/init")
@@ -82,7 +82,11 @@ func verifHarness_C20_write(k int, n int) {
 	}
 	verifAssert(len(file) == pos, "C20/W/file-no-extra-bytes")
 	verifObserveBytes("C20/W/file", rec.Buf())
-	r := &Reader{ByteReader: frame.VerifChunkReader(rec.Buf(), nil)}
+	var chunks []int
+	if cut > 0 {
+		chunks = []int{cut}
+	}
+	r := &Reader{ByteReader: frame.VerifChunkReader(rec.Buf(), chunks)}
 	verifAssert(r.Initialize() == nil, "C20/W/reader-init")
 	for i := 0; i < k; i++ {
 		e, err := r.Read()
@@ -193,4 +197,60 @@ func verifHarness_C20_writefail(n int, failAt int) {
 		verifAssert(err == nil, "C20/F/ok-when-no-failure")
 	}
 	verifReach("C20/F")
+}
+
+// E2: an unencodable entry between valid ones leaves no trace: the file holds exactly the valid entries
+func verifHarness_C20_fail_then_ok(n int) {
+	rec := &frame.VerifRecWriter{}
+	w := &Writer{ByteWriter: rec}
+	verifAssert(w.Initialize() == nil, "C20/E2/init")
+	id := verifNondetU32()
+	verifAssume(id > 0xFF)
+	bad := &frame.V1Frame{SequenceNumber: verifNondetU8(), Checksum: verifNondetU16(), Message: &message.MessageRaw{ID: id, Payload: verifNondetBytes(n)}}
+	verifAssert(w.Write(&Entry{Time: time.Unix(1600000000, 0), Frame: bad}) != nil, "C20/E2/unencodable-reports-error")
+	fr, wire := verifFrame(verifNondetRange(0, 2), n)
+	verifAssert(w.Write(&Entry{Time: time.Unix(1700000000, 123456000), Frame: fr}) == nil, "C20/E2/valid-entry-ok")
+	var exp []byte
+	exp = append(exp, verifBE64(1700000000123456)...)
+	exp = append(exp, wire...)
+	verifObserveBytes("C20/E2/file", rec.Buf())
+	verifAssert(verifEqBytes(rec.Buf(), exp), "C20/E2/file-holds-only-the-valid-entry")
+	verifReach("C20/E2")
+}
+
+// S: a valid log delivered by the transport in pieces (first read of `cut` bytes, then the rest, or 1-byte reads
+// when cut < 0) reads back as the same entries. Timestamps fixed (all values: harness T).
+func verifHarness_C20_readsplit(k int, n int, cut int) {
+	var log []byte
+	wires := make([][]byte, k)
+	stamps := []uint64{0xFFFFF00000000123, 0, 1700000000123456}
+	for i := 0; i < k; i++ {
+		_, wire := verifFrame(verifNondetRange(0, 2), n)
+		wires[i] = wire
+		log = append(log, verifBE64(stamps[i%3])...)
+		log = append(log, wire...)
+	}
+	var chunks []int
+	if cut > 0 {
+		chunks = []int{cut}
+	}
+	if cut < 0 {
+		chunks = make([]int, len(log))
+		for i := range chunks {
+			chunks[i] = 1
+		}
+	}
+	r := &Reader{ByteReader: frame.VerifChunkReader(log, chunks)}
+	verifAssert(r.Initialize() == nil, "C20/S/reader-init")
+	for i := 0; i < k; i++ {
+		e, err := r.Read()
+		verifAssert(err == nil && e != nil, "C20/S/entry-read-whatever-the-segmentation")
+		if err == nil && e != nil {
+			verifAssert(uint64(e.Time.UnixMicro()) == stamps[i%3], "C20/S/time-equal")
+			verifAssert(verifEqBytes(frame.VerifWireOf(e.Frame), wires[i]), "C20/S/frame-equal")
+		}
+	}
+	_, err := r.Read()
+	verifAssert(err != nil, "C20/S/then-error")
+	verifReach("C20/S")
 }
